@@ -347,14 +347,13 @@ func (p *refParser) primary() ast.Node {
 }
 
 // refCompare checks one source text: the real parser against the reference grammar
-func (c *Ctx) refCompare(stage, src string) {
+func (c *Ctx) refCompare(stage, src string, got parseOutcome) {
 	r := c.R
 	toks, err := lexer.Lex(fileSource(src))
 	if err != nil {
 		return
 	}
 	want, ok, why := refParse(toks)
-	got := implParse(src)
 	r.Count("ref:"+stage, 1)
 	switch {
 	case ok && got.tree == nil:
